@@ -393,7 +393,7 @@ def run_partition(args):
 
 
 def main(run: Run):
-    depth, dev = run.pick((4, 1), (6, 2))
+    depth, dev = run.pick((4, 1), (5, 2))  # (thorough was 6 events before the alphabet grew by the zero-amount and near-wallet classes: 22 minutes; 5 events with 2 deviations now)
     world = make_world()
     ctx = world.build()
     labels = [o.label for o in alphabet(world)(ctx)]
